@@ -114,6 +114,7 @@ def measure_ops(rec, rng, s, g, t, info, pair, is_pdf):
     xe = J(gen.vec(rng, R, D))
     A = J(gen.vec(rng, 2, D)); a = J(gen.vec(rng, 2))
     B = J(gen.vec(rng, 3, D)); b = J(gen.vec(rng, 3))
+    idx_neg = np.array([-1, 0, -R, -1]) if R > 1 else np.array([-1, 0, -1])
     ops = [
         ("evaluate_ln", lambda o: o.evaluate_ln(x)),
         ("evaluate_ln[element_wise]", lambda o: o.evaluate_ln(xe, element_wise=True)),
@@ -123,6 +124,8 @@ def measure_ops(rec, rng, s, g, t, info, pair, is_pdf):
         ("integral", lambda o: o.integral()),
         ("get_density", lambda o: o.get_density()),
         ("slice", lambda o: o.slice(JI(rng0.integers(0, R, size=3)))),
+        ("slice[negative, repeated]", lambda o: o.slice(JI(idx_neg))),
+        ("slice[negative].integrate[x]", lambda o: o.slice(JI(idx_neg)).integrate("x")),
         ("product", lambda o: o.product()),
         ("product.log_integral", lambda o: o.product().log_integral()),
         ("integrate[x]", lambda o: o.integrate("x")),
@@ -321,6 +324,17 @@ def run_cond_pair(cell, rec, seed):
                  lambda: g.get_conditional_mu(x), info, name)
             both(rec, "set_control_variable", lambda: s.set_control_variable(kw["u"]),
                  lambda: g, info, name)
+            # a second NN-controlled conditional with another network, driven by the very same
+            # control values in the same process: it must follow its own network
+            s2, t2, kw2 = build.mk_conditional("nn", rng, Rc, Dy, Dx, kappa=10.0,
+                                               u_fixed=np.asarray(kw["u"]))
+            g2 = C.ConditionalGaussianPDF(M=J(t2.M), b=J(t2.b), Sigma=J(t2.Sigma))
+            both(rec, "get_conditional_mu[second network, same control]",
+                 lambda: s2.get_conditional_mu(x, **kw2), lambda: g2.get_conditional_mu(x),
+                 info, name)
+            both(rec, "affine_marginal_transformation[second network, same control]",
+                 lambda: s2.affine_marginal_transformation(p, **kw2),
+                 lambda: g2.affine_marginal_transformation(p), info, name)
         else:
             both(rec, "condition_on_x", lambda: s.condition_on_x(x), lambda: g.condition_on_x(x),
                  info, name)
